@@ -47,6 +47,9 @@ type boundedSpec struct {
 }
 
 var boundedSpecs = []boundedSpec{
+	{prop: "C15", name: "C15#bounded#batches-equal-find", harness: "c15_bounded_test.go.txt", pkgDir: "tests", run: "TestGvcBoundedC15$",
+		statement: "on the SQLite database of the test module, for every table size 0..bound, batch size 1..bound+1, limit and offset in {absent, -1, 0..bound+1}: FindInBatches delivers exactly the rows the same chain's Find returns in primary-key order, once each, in order, in batches no larger than requested, and reports their number in RowsAffected",
+		quick: "4", thorough: "6"},
 	{prop: "C17", name: "C17#bounded#registration-sequences", harness: "c17_bounded_test.go.txt", pkgDir: "", run: "TestGvcBoundedC17$",
 		statement: "for every sequence of Register / Before(x).Register / After(x).Register / Before(x).After(y).Register / Replace / Remove up to the bound over 4 built-in names, 2 new names and 1 unknown name: an error is returned, or every registered non-removed callback runs exactly once, on the requested side of the callback it names, built-ins keep their relative order, Replace keeps the position",
 		quick: "2", thorough: "3"},
@@ -66,7 +69,7 @@ func runBounded(e *Engine, b boundedSpec, tier string) *extraItem {
 	if tier == "thorough" {
 		bound = b.thorough
 	}
-	it := &extraItem{Name: b.name, Statement: b.statement, Bounded: true, Bound: "sequence length <= " + bound, Backend: "go test (real code)"}
+	it := &extraItem{Name: b.name, Statement: b.statement, Bounded: true, Bound: "bound = " + bound, Backend: "go test (real code)"}
 	src, err := os.ReadFile(filepath.Join(e.verif, "harness", b.harness))
 	if err != nil {
 		it.Result = "harness missing: " + err.Error()
